@@ -40,6 +40,12 @@ LEVEL_TEXT += (
     "(R6) no result read from uninitialised memory; hidden randomness "
     "and in-place canonicalisation by external routines; closures that "
     "do not outlive their call may keep per-call state.")
+LEVEL_TEXT += (
+    " Added in the third round (review of the fix commits, DESIGN.md "
+    "9.6): "
+    "the ARPACK start vector is generic (a seeded draw, not a constant "
+    "vector); the M= operand of eigs / eigsh is covered by the "
+    "canonicaliser rule.")
 LEVEL_NOTE = (
     "Assumes third-party calls (numpy/scipy) have no effects other than "
     "those in the enumerated tables (out=, ufunc.at, put/place/copyto, "
